@@ -76,6 +76,9 @@ func Text(col string, c Cell) string {
 		}
 		return fmt.Sprintf("%02d:%02d:%02d", c.H, c.M, c.S)
 	case "date":
+		if c.V == ZeroDate {
+			return "00010101"
+		}
 		return Dates[c.V]
 	case "bad":
 		return Bads[c.V]
